@@ -70,16 +70,18 @@ def main() -> int:
     detected: dict = {}
     rc, out = sh(f"git -C /repo apply {patch}")
     assert rc == 0, out
+    evdir = tempfile.mkdtemp(prefix="verif-seed-ev-")  # evidence of runs on a patched tree is not kept
     try:
         for i in range(1, 21):
             pid = f"C{i:02d}"
-            rc, out = sh(f"{PY} check.py {pid}", cwd=str(VERIF))
+            rc, out = sh(f"VERIF_EVIDENCE_DIR={evdir} {PY} check.py {pid}", cwd=str(VERIF))
             if rc != 0:
                 rules = sorted(set(re.findall(r": (R\d+\.\d+) in ", out)))
                 first = [l for l in out.splitlines() if ": R" in l][:2]
                 detected[pid] = {"exit": rc, "rules": rules, "first": [l[:300] for l in first],
                                  "analysis_error": [l[:300] for l in out.splitlines() if l.startswith("ANALYSIS-ERROR")]}
     finally:
+        shutil.rmtree(evdir, ignore_errors=True)
         sh("git -C /repo checkout -- .")
         rc, out = sh("git -C /repo status --short")
         assert out.strip() == "", f"/repo not clean: {out}"
@@ -100,9 +102,6 @@ def main() -> int:
     print(json.dumps({k: meta[k] for k in ("confirmed", "suite_with_patch", "demo_clean", "demo_patched", "caught_by_own_property", "caught_by_any")}, indent=1))
     for pid, v in detected.items():
         print(pid, v["exit"], v["rules"], (v["first"] or v["analysis_error"] or [""])[0][:220])
-    # restore evidence files written while the patch was applied
-    for i in range(1, 21):
-        sh(f"{PY} check.py C{i:02d}", cwd=str(VERIF)) if f"C{i:02d}" in detected else None
     return 0
 
 
